@@ -3,6 +3,7 @@ package harness
 import (
 	"context"
 	"fmt"
+	"time"
 
 	"github.com/jhump/grpctunnel/verifrt"
 	"google.golang.org/grpc"
@@ -160,6 +161,19 @@ func c15Scenarios(tier string) []*Scenario {
 			}, chk: func(w *World, x *Exec) []Violation {
 				return completeOK(w, "C15", StdWorkload("r2", 2, "Unary", []int{3}, []int{3}))
 			}},
+		{name: "stalled-stream||cancel||rpc", desc: "a caller that never reads lets responses pile up (without flow control the receive loop ends up parked handing one over) while its RPC is cancelled from another goroutine and abandoned; a unary RPC on the same tunnel must still run", rev: []bool{false, true},
+			run: func(w *World, t *Tun) {
+				d := StdWorkload("r1", 1, "ServerStream", []int{3}, nil)
+				d.Call.Ops = []COp{{K: "new"}, {K: "send", Size: 3}, {K: "closesend"}, {K: "waitfault", D: 3 * time.Second}}
+				d.Handler.Ops = []HOp{{K: "recv"}, {K: "send", Size: 3}, {K: "send", Size: 3}, {K: "send", Size: 3}, {K: "send", Size: 3}, {K: "waitctx"}, {K: "return"}}
+				d.Handler.KeepGoing = true
+				ths := w.StartCallers(t, []Workload{d})
+				w.StartFault(t, "cancel:r1")
+				w.Join(ths...)
+				w.Join(w.StartCallers(t, []Workload{StdWorkload("r2", 2, "Unary", []int{3}, []int{3})})...)
+			}, chk: func(w *World, x *Exec) []Violation {
+				return completeOK(w, "C15", StdWorkload("r2", 2, "Unary", []int{3}, []int{3}))
+			}},
 		{name: "queries||open||rpc", desc: "registry queries (Ready, AllReverseTunnels, WaitForReady) from one goroutine while an RPC runs and a second reverse tunnel is opened", rev: []bool{true},
 			run: func(w *World, t *Tun) {
 				q := w.Go("query", true, func() {
@@ -184,7 +198,10 @@ func c15Scenarios(tier string) []*Scenario {
 			for _, noFC := range []bool{false, true} {
 				for _, revOrder := range []bool{false, true} {
 					p, rev, noFC, revOrder := p, rev, noFC, revOrder
-					if noFC && p.name != "send||recv||header" && p.name != "rpcs||close" {
+					if noFC && p.name != "send||recv||header" && p.name != "rpcs||close" && p.name != "stalled-stream||cancel||rpc" {
+						continue
+					}
+					if !noFC && p.name == "stalled-stream||cancel||rpc" && rev {
 						continue
 					}
 					cfg := TunCfg{Reverse: rev, ServerNoFC: noFC}
